@@ -242,6 +242,82 @@ def keep(s: str, B: str) -> str:
     return ''.join(ch for ch in s if not ch.isspace() and ch not in B)
 
 
+# ---------------------------------------------------------------------------------------
+# WAVE 5: the separator after a line that ENDS IN WHITE SPACE
+# ---------------------------------------------------------------------------------------
+# C16 fixes white space in two places only: "a line ending in a LETTER is followed by exactly one space" and "a line
+# ending in a letter plus one word-break character is joined …" — both rules are conditioned on what the line ends in,
+# and the conservation clause exempts white space ("every character of the lines other than whitespace and
+# word-break characters").  For a line that itself ends in a white-space character the statement therefore says
+# nothing about whether the builder puts one more blank between it and the next line.  The model mirrors the code
+# (which appends one); the correspondence compares such a line's contribution UP TO THAT ONE OPTIONAL BLANK:
+#   the two contributions are equal, or one is the other plus one trailing ' ' and the shorter one still ends in white
+#   space.
+# Everything the statement does fix stays exact: one range per non-empty line, in order, its labels, contiguity from 0
+# to len(text) (checked on the implementation's ranges), the contribution of every line that does NOT end in white
+# space, the last line (verbatim, never padded).
+
+def _opt_blank_same(a: str, b: str) -> bool:
+    """equal up to one optional trailing blank after white space"""
+    if a == b:
+        return True
+    if len(a) > len(b):
+        a, b = b, a
+    return b == a + ' ' and a[-1:].isspace()
+
+
+def _pieces(o: Dict[str, Any]):
+    """(text, ranges) -> [(line_id, parent_id, contribution)], or None when the ranges are not a contiguous cover
+    of the text from 0 (then nothing is canonicalised: the raw values are compared)"""
+    try:
+        text, ranges = o['ok']['text'], o['ok']['ranges']
+        if not isinstance(text, str) or not ranges:
+            return None
+        pos, out = 0, []
+        for r in ranges:
+            if set(r) != {'start', 'end', 'line_id', 'parent_id'} or r['start'] != pos or \
+                    type(r['end']) is not int or r['end'] < pos:
+                return None
+            out.append((r['line_id'], r['parent_id'], text[pos:r['end']]))
+            pos = r['end']
+        return out if pos == len(text) else None
+    except Exception:  # noqa
+        return None
+
+
+def para_same(texts: List[Optional[str]], a: Dict[str, Any], b: Dict[str, Any]) -> bool:
+    """one answer of make_text_region_text (implementation `a`, model `b`) on lines with the texts `texts`:
+    identical, or identical up to the optional blank after lines that end in white space"""
+    if a == b:
+        return True
+    if not (isinstance(a, dict) and isinstance(b, dict) and 'ok' in a and 'ok' in b) or \
+            {k: v for k, v in a.items() if k != 'ok'} != {k: v for k, v in b.items() if k != 'ok'}:
+        return False
+    pa, pb = _pieces(a), _pieces(b)
+    ne = [t for t in texts if t]
+    if pa is None or pb is None or len(pa) != len(pb) or len(pa) != len(ne):
+        return False
+    for n, (t, x, y) in enumerate(zip(ne, pa, pb)):
+        if x[:2] != y[:2]:
+            return False
+        if x[2] != y[2]:
+            # the freedom exists only AFTER a line (never after the last one) that ends in white space
+            if n == len(ne) - 1 or not t[-1].isspace() or not _opt_blank_same(x[2], y[2]):
+                return False
+    return True
+
+
+def line_text_same(row, a: Dict[str, Any], b: Dict[str, Any]) -> bool:
+    """make_line_text(line, do_merge, …) called directly: the same freedom, for a line that is NOT merged with
+    the next one and ends in white space"""
+    if a == b:
+        return True
+    t, do_merge = row[0], row[1]
+    return (not do_merge and bool(t) and t[-1].isspace() and isinstance(a, dict) and isinstance(b, dict)
+            and isinstance(a.get('ok'), str) and isinstance(b.get('ok'), str) and set(a) == set(b) == {'ok'}
+            and _opt_blank_same(a['ok'], b['ok']))
+
+
 @guarded
 class C16(Check):
     pid = 'C16'
@@ -273,7 +349,13 @@ class C16(Check):
                   'answer of the same call made first in a fresh process, that equal calls give equal answers, and that '
                   'no call changes its inputs (lines, break-character container, detector); merge_lines is followed by '
                   'USING the merged line (attached to another region by add_child / constructor / set_parent, edited): '
-                  'the original lines and the paragraph built from them must not change')
+                  'the original lines and the paragraph built from them must not change. '
+                  'Correspondence level (wave 5): text and ranges of make_text_region_text / make_line_text are compared '
+                  'exactly, up to ONE optional blank after a (non-last, for make_line_text: non-merged) line that itself '
+                  'ends in a white-space character — the statement conditions both spacing rules on a line ending in a '
+                  'letter (+ break character) and exempts white space from conservation; the ranges are then compared as '
+                  'per-line contributions (labels, order and contiguity from 0 to the text length stay exact; the model '
+                  'keeps the code\'s choice of appending the blank)')
     assumptions = [
         'the class bits sent with every request (CPython) obey the three CharClass laws (checked per character)',
         'the hull of merge_lines is whatever parse_derived_coords returns (C09); here only "the same call on the '
@@ -726,22 +808,23 @@ class C16(Check):
         k = case.kind
         if k == 'para_seq':
             for n, (st, o, b) in enumerate(zip(case.input['steps'], impl_out, model_out)):
+                texts = [s_.get('text') for s_ in case.input['lines']]
                 for which in ('out', 'seq'):
                     a = o[which]
-                    if 'worker_err' not in a and a != b:
+                    if 'worker_err' not in a and not para_same(texts, a, b):
                         return (f'make_text_region_text, call {n + 1} of a sequence ({which}), B={st["B"]!r} '
                                 f'({st.get("form", "str")}): impl={a} model={b}')
             return None
         if k in ('para', 'para_enum', 'para_fake'):
             for specs, a, b in zip(self._paras(case), impl_out, model_out):
-                if a != b:
+                if not para_same([s_.get('text') for s_ in specs], a, b):
                     return (f'make_text_region_text texts={[s.get("text") for s in specs]} B={case.input["B"]!r} '
                             f'impl={a} model={b}')
             return None
         if k == 'line_text':
             m = model_out[0].get('ok')
             for row, a, b in zip(case.input['rows'], impl_out, m or []):
-                if a != b:
+                if not line_text_same(row, a, b):
                     return f'make_line_text{row} B={case.input["B"]!r} impl={a} model={b}'
             return None if m is not None and len(m) == len(impl_out) else f'model answered {model_out[0]}'
         if k == 'wordbreak':
